@@ -150,6 +150,25 @@ class WriterCapture:
         V.PhasedVcfWriter.write = self._orig
 
 
+def permute_columns(src, dst, order):
+    """the same VCF with its sample columns in the given order (plain text output)"""
+    import pysam
+
+    with pysam.VariantFile(src) as vf:
+        names = list(vf.header.samples)
+        idx = [names.index(x) for x in order if x in names]
+        assert sorted(idx) == list(range(len(names)))
+        with open(dst, "w") as f:
+            for line in str(vf.header).splitlines():
+                if line.startswith("#CHROM"):
+                    t = line.split("\t")
+                    line = "\t".join(t[:9] + [t[9 + j] for j in idx])
+                f.write(line + "\n")
+            for rec in vf:
+                t = str(rec).rstrip("\n").split("\t")
+                f.write("\t".join(t[:9] + [t[9 + j] for j in idx]) + "\n")
+
+
 def eligible_records(records, only_snvs=False):
     """
     indices of the records the phased writer (and the reader) treat as *the* variant of their position:
@@ -665,6 +684,11 @@ def gen_store_case(rng, prop, tier):
                     op["outfmt"] = rng.choice(["vcf.gz", "bcf"])
             if len(samples) > 1 and rng.random() < 0.35:
                 op["samples"] = sorted(rng.sample(samples, rng.randrange(1, len(samples))), key=samples.index)
+                if rng.random() < 0.3:
+                    rng.shuffle(op["samples"])  # --sample B --sample A: an order that is not the column order
+            elif len(samples) > 1 and rng.random() < 0.1:
+                op["samples"] = list(samples)
+                rng.shuffle(op["samples"])  # all samples, named explicitly in another order
             if trio and rng.random() < 0.65:
                 ped = {}
                 if rng.random() < 0.3:
@@ -686,6 +710,11 @@ def gen_store_case(rng, prop, tier):
                 op["debug"] = True
             if rng.random() < 0.2:
                 op["only_snvs"] = True
+            elif len(samples) > 1 and rng.random() < 0.35:
+                # target samples named explicitly: a subset and/or an order that is not the column order
+                op["samples"] = rng.sample(samples, rng.randrange(1, len(samples) + 1))
+            if len(samples) > 1 and rng.random() < 0.25:
+                op["permute_source"] = True  # the phased VCF lists its samples in another column order than the variant file
             ops.append(op)
     if knobs["many_sets"] and prop == "C09":
         ops.insert(0, {"op": "from_vcf", "source": -1, "tag": rng.choice(["PS", "HP"]), "base": rng.choice(["current", "initial-unphased"])})
@@ -848,6 +877,12 @@ class StoreRun:
                      "%s:%s:%s" % (crash_class, e.type_name, e.site))
             return False, None
         except ChildCrashed as e:
+            if rare_options:
+                # same policy as for an exception under rarely used options: no output exists, no clause of C09 speaks about it
+                # (seen on the unchanged tree: `phase --algorithm heuristic --ped` dies with SIGSEGV on a family with one read)
+                self.stats.inc("op_died_with_rare_options")
+                self.log.add("died", str(e)[:60])
+                return False, None
             self.add(prop_for_crash, crash_class, "%s: the whatshap process died (%s)" % (what, e), "%s:died" % crash_class)
             return False, None
         except CommandLineError as e:
@@ -1165,11 +1200,29 @@ class StoreRun:
             base = self.current
             base_model = dict(self.model)
             base_tags = dict(self.tag_of)
-        # mixed-file rule: all samples/chromosomes are targets here, so any tag is fine
+        tsamples = list(self.samples)
+        if op.get("samples") and not only_snvs:
+            tsamples = [x for x in op["samples"] if x in self.samples]
+            if not tsamples:
+                self.stats.inc("skipped_ops")
+                return True
+            # mixed-file rule (see enabled_tag), against the tags of the base file
+            targets = {(c, x) for c in self.chroms for x in tsamples}
+            if any(cs not in targets and t != tag for cs, t in base_tags.items()):
+                self.stats.inc("skipped_ops_mixed_tag")
+                return True
+        explicit = tsamples if (op.get("samples") and not only_snvs) else None
+        if op.get("permute_source") and len(self.samples) > 1:
+            permuted = self.newfile("source_permuted")
+            permute_columns(source, permuted, list(reversed(self.samples)))
+            source = permuted
+            self.stats.inc("from_vcf_source_columns_permuted")
         out = self.newfile("fromvcf_%s" % tag)
         self.last_input = base
-        what = "op %d phase_from_vcf(source=state %d,tag=%s,base=%s)" % (i, src, tag, op.get("base", "current"))
-        ok, res = self.guarded(what, lambda: self._phase([source], base, out, tag, only_snvs=only_snvs,
+        what = "op %d phase_from_vcf(source=state %d%s,tag=%s,base=%s%s)" % (
+            i, src, " with columns reversed" if op.get("permute_source") else "", tag, op.get("base", "current"),
+            ",samples=%s" % ",".join(explicit) if explicit else "")
+        ok, res = self.guarded(what, lambda: self._phase([source], base, out, tag, only_snvs=only_snvs, samples=explicit,
                                                          extra={"debug_logging": True} if op.get("debug") else None), "C09", "phase-crashed")
         if not ok:
             self.snv_view = False
@@ -1179,7 +1232,11 @@ class StoreRun:
         if self.snv_view:
             base_model = {}  # keys of the full view say nothing here; every sample and chromosome is a target anyway
             self.stats.inc("from_vcf_only_snvs_on_duplicate_positions")
-        dec = self.check_phase_output(what, out, tag, written, touched, self.samples, self.chroms, base_model, only_snvs=only_snvs)
+        if explicit:
+            self.stats.inc("from_vcf_explicit_samples")
+            if explicit != [x for x in self.samples if x in explicit]:
+                self.stats.inc("from_vcf_samples_not_in_column_order")
+        dec = self.check_phase_output(what, out, tag, written, touched, tsamples, self.chroms, base_model, only_snvs=only_snvs)
         if dec is None:
             self.snv_view = False
             return False
@@ -1190,7 +1247,7 @@ class StoreRun:
         for k3, (ps, al) in srcdec.items():
             if ps is None:
                 continue  # phased by '|' with a missing PS value: no phase set to reproduce
-            if k3 in can:
+            if k3 in can and k3[1] in tsamples:
                 by_set.setdefault((k3[0], k3[1], ps), []).append((k3[2], al))
         checked = 0
         for (c, s), _ in sorted({(k[0], k[1]): 1 for k in by_set}.items()):
@@ -1231,7 +1288,9 @@ class StoreRun:
                 checked += 1
         self.stats.inc("r5_sets_checked", checked)
         self.model = dict(dec)
-        self.tag_of = {(k[0], k[1]): tag for k in dec}
+        tset = {(c, x) for c in self.chroms for x in tsamples}
+        self.tag_of = {cs: t for cs, t in base_tags.items() if cs not in tset}
+        self.tag_of.update({(k[0], k[1]): tag for k in dec if (k[0], k[1]) in tset})
         self.current = out
         self.snap[i] = out
         self.log.add("from_vcf", [tag, src, len(dec), checked])
